@@ -409,7 +409,7 @@ func execStruct(vec J, out *Writer) {
 		// document with unknown fields -> P5 -> change the known fields -> Marshal
 		doc := S(vec["doc"])
 		rec := J{"ev": "passthru", "in": vec, "panic": false, "unmarshal_ok": false, "marshal_ok": false, "bytes": B(""),
-			"para": paraToJ(control.Paragraph{}), "first": J{}}
+			"para": paraToJ(control.Paragraph{}), "para_kept": paraToJ(control.Paragraph{}), "first": J{}}
 		func() {
 			defer func() {
 				if r := recover(); r != nil {
@@ -426,6 +426,14 @@ func execStruct(vec J, out *Writer) {
 			para, perr := control.ConvertToParagraph(p)
 			if perr == nil && para != nil {
 				rec["para"] = paraToJ(*para)
+				// the same struct converted again with OTHER known fields set: the paragraph obtained first is a value of
+				// its own and lists what it listed
+				q := *p
+				q.Name, q.Tags = "", []string{"q"}
+				control.ConvertToParagraph(&q)
+				q.Name, q.Tags = "other", nil
+				control.ConvertToParagraph(&q)
+				rec["para_kept"] = paraToJ(*para)
 			}
 			var buf bytes.Buffer
 			err := control.Marshal(&buf, p)
